@@ -14,13 +14,13 @@ CLAIM = dict(
           "contexts cover (exact arithmetic, n < 2^24); create_array over a raw (pointer, shape, dim) triple is the original array. "
           "Tied to the C++ by a host simulation performing exactly the kernel's steps with the real functions "
           "(get_function_composition, get_function_operands, device_array / create_array from raw triples, create_mutable_array, "
-          "functional::apply, assign_result with simulated ids) for 8 view compositions of depth 1..3 under generated schedules; "
+          "functional::apply, assign_result with simulated ids) for 9 view compositions of depth 1..3 under generated schedules; "
           "compared: final buffer, per-thread write set, guard cells behind the buffer, host view. "
           "PARTIAL: device runtimes are absent from the sandbox - real device memory models, warp scheduling, vendor launch "
           "code (the geometry arithmetic sits in headers that need the CUDA/HIP/SYCL/OpenCL toolkits) are neither modelled nor "
-          "corresponded. That result == host evaluation is C14's extraction theorem; its two findings are inherited."),
+          "corresponded. That result == host evaluation is C14's extraction theorem; its finding (non-leaf operand at position >= 1) is inherited."),
     ref="5.13", technique="Coq proof (invariant over an arbitrary schedule) + differential correspondence of a host simulation", extra="")
-RULE = ("8 fixed view compositions (depth 1..3) x operand shapes dim 1..4 x operand styles (device_array DIM=0, fixed DIM, "
+RULE = ("9 fixed view compositions (depth 1..3) x operand shapes dim 1..4 x operand styles (device_array DIM=0, fixed DIM, "
         "create_array views) x block sizes 1..33 x grids exact..2x x orders (ascending, descending, interleaved, seeded "
         "permutations, with duplicates, incomplete); rebuild round trips on all shapes dim 1..4 extents 1..3; compute_offset box. "
         "non-trivial = kern case with output size >= 4; distinct = distinct case lines")
@@ -30,8 +30,8 @@ THEOREM_STATUS = {"proved": ["C13_kernel_schedule_independent", "C13_cell_final_
 ASSUMPTIONS = ["thread/block ids are exact non-negative integers (64-bit wrap of bid*bsz+tid not modelled)",
                "launch geometry: exact arithmetic stands for size_t(ceil(float(n)/w)) (n < 2^24); proof only, the contexts are not compilable here",
                "device memory model / real concurrency not modelled: threads are independent single-cell writers, executed one after another",
-               "result == host evaluation of the view only on C14's class wf (findings extraction-nonleaf-operand-at-position>=1, "
-               "extraction-dangling-suboperand are inherited)"]
+               "result == host evaluation of the view only on C14's class wf (finding extraction-nonleaf-operand-at-position>=1 is inherited; "
+               "the dangling sub-operand of the extraction was repaired in /repo by a fix: commit)"]
 
 SENT = -999
 
@@ -75,9 +75,9 @@ COMPS = {
     "neg_tr_add": lambda a, b: neg(transpose(ew(lambda x, y: x + y, a, b))),
     "sum_tr_mul": lambda a, b: sum_axis(transpose(ew(lambda x, y: x * y, a, b)), 1),
     "mm_tr_r":    lambda a, b: matmul(a, transpose(b)),          # outside wf
-    "sub_tr_l":   lambda a, b: ew(lambda x, y: x - y, transpose(a), b),   # binary ufunc over a non-leaf
+    "sub_tr_l":   lambda a, b: ew(lambda x, y: x - y, transpose(a), b),   # binary ufunc over a non-leaf at position 0 (wf)
 }
-NONWF = {"mm_tr_r": "extraction-nonleaf-operand-at-position>=1", "sub_tr_l": "extraction-dangling-suboperand"}
+NONWF = {"mm_tr_r": "extraction-nonleaf-operand-at-position>=1"}
 
 
 def A(a): return "A:%s:%s" % (",".join(map(str, a[0])), ",".join(map(str, a[1])))
@@ -195,5 +195,5 @@ def classify(line, impl, spec, model):
     if comp in NONWF:
         # the host view itself is right; what the kernel's extraction + apply produced is not
         hs = spec.split(" | ")[0]
-        if impl.startswith("trap") or impl.split(" | ")[0] == hs: return NONWF[comp]
+        if impl.split(" | ")[0] == hs: return NONWF[comp]
     return None
